@@ -26,9 +26,12 @@ if go test -vet=off -count=1 ./... >/tmp/cm/suite.$$ 2>&1; then s=pass; else
   if grep -q -- '--- FAIL: TestConcurrent' /tmp/cm/suite.$$ && [ "$(grep -c -- '^--- FAIL' /tmp/cm/suite.$$)" = "1" ] && go test -vet=off -count=1 ./... >/tmp/cm/suite.$$ 2>&1; then s=pass; else s=FAIL; fi
 fi
 cp "$demo" "$pkgdir/"
+# a demonstration that observes fsyncs / pause points through the hooks is built with the hook tag
+tags=""
+grep -q '^//go:build verif' "$demo" && tags="-tags verif"
 tn=$(grep -o 'func Test[A-Za-z0-9_]*' "$demo" | head -1 | awk '{print $2}')
-if go test -vet=off -count=1 -run "^$tn\$" "./$pkgdir" >/tmp/cm/demo_with.$$ 2>&1; then w=pass; else w=FAIL; fi
+if go test $tags -vet=off -count=1 -run "^$tn\$" "./$pkgdir" >/tmp/cm/demo_with.$$ 2>&1; then w=pass; else w=FAIL; fi
 git checkout -q -- . 
-if go test -vet=off -count=1 -run "^$tn\$" "./$pkgdir" >/tmp/cm/demo_without.$$ 2>&1; then wo=pass; else wo=FAIL; fi
+if go test $tags -vet=off -count=1 -run "^$tn\$" "./$pkgdir" >/tmp/cm/demo_without.$$ 2>&1; then wo=pass; else wo=FAIL; fi
 echo "VERDICT suite-with-mutant=$s demo-with-mutant=$w demo-without=$wo test=$tn pkg=$pkgdir"
 rm -f /tmp/cm/*.$$
